@@ -11,7 +11,9 @@ from vp import hx
 from c01 import ENV_POOL, SBOM_FORMATS, check_others
 from c04 import enc_entries, dec_env
 
-NAMES = ["a", "a.b", "c-1"]
+# layer names: plain, dotted (stem = another layer), and legal names with characters that are special somewhere else (quotes,
+# backslash, tab, leading / trailing space - "deps " and "deps" are two layers -, non-ASCII). A history uses three of them.
+NAMES = ["a", "a.b", "c-1", "deps", "deps ", " lead", "it's", 'q"x', "tab\tname", "é", "back\\slash", "a b"]
 UMASK = 0o022       # umask of the executor process of this shard (set by shard_run)
 SYMS = ["K1", "U1", "R1", "E1", "K2", "U2", "M2e", "D", "Rst", "Kb", "Ce"]
 MKEY = {"v1": "v", "v2": "version", "defaults": "v"}
@@ -325,11 +327,12 @@ def run_history(mon, base, hid, steps, names, sh, snapshots_out=None):
 
 def random_history(r, length):
     steps = []
+    mine = NAMES[:3] if r.random() < 0.4 else r.sample(NAMES, 3)
     for _ in range(length):
         if r.random() < 0.15:
             steps.append({"op": "restore"})
         else:
-            steps.append(concrete(r.choice([s for s in SYMS if s not in ("Rst",)]), r, r.choice(NAMES)))
+            steps.append(concrete(r.choice([s for s in SYMS if s not in ("Rst",)]), r, r.choice(mine)))
     return steps
 
 
